@@ -55,11 +55,21 @@ fn c12_session_try_commit(dir: &str) -> bool {
     rejected && unchanged && restored
 }
 
+/// the rollback history must be as if the rejected attempt had never been made: rollback(1) undoes
+/// the competing (accepted) commit that wrote key(2).
+fn rollback_undoes_winner(db: &Db) -> bool {
+    db.rollback(1).unwrap();
+    let k1 = db.read(key(1)).unwrap();
+    let k2 = db.read(key(2)).unwrap();
+    println!("after rollback(1): k1={:?} k2={:?}", k1, k2);
+    k1 == Some(vec![1]) && k2 == None
+}
+
 /// C12: a stale `Overlay::commit` is rejected; afterwards the overlay must behave exactly as before
 /// the attempt: a session layered on it still sees its (uncommitted) values.
 fn c12_overlay_commit(dir: &str, nonblocking: bool) -> bool {
     let _ = std::fs::remove_dir_all(dir);
-    let db: Db = Nomt::open(opts(dir, false)).unwrap();
+    let db: Db = Nomt::open(opts(dir, true)).unwrap();
     commit(&db, vec![(key(1), Some(vec![1]))]);
     let so = db.begin_session(SessionParams::default());
     let overlay = so.finish(vec![(key(5), KeyReadWrite::Write(Some(vec![5])))]).unwrap().into_overlay();
@@ -85,7 +95,9 @@ fn c12_overlay_commit(dir: &str, nonblocking: bool) -> bool {
         let incomplete_after = SessionParams::default().overlay([&child]).is_err();
         let child_refused = child.commit(&db).is_err();
         println!("rejected={} child-alone chain refused before={} after={} child_commit_refused={}", rej, incomplete_before, incomplete_after, child_refused);
-        return rej && incomplete_before && incomplete_after && child_refused && db.root() == root;
+        let root_unchanged = db.root() == root;
+        let history_ok = rollback_undoes_winner(&db);
+        return rej && incomplete_before && incomplete_after && child_refused && root_unchanged && history_ok;
     } else {
         let child = {
             let s = db.begin_session(SessionParams::default().overlay([&overlay]).unwrap());
@@ -100,7 +112,8 @@ fn c12_overlay_commit(dir: &str, nonblocking: bool) -> bool {
     // `overlay` now holds the child whose parent commit was rejected
     let child_refused = overlay.commit(&db).is_err();
     println!("before={:?} rejected+chain={} child_commit_refused={} root_unchanged={}", before, rejected, child_refused, db.root() == root);
-    rejected && child_refused && db.root() == root && db.read(key(6)).unwrap() == None
+    let ok = rejected && child_refused && db.root() == root && db.read(key(6)).unwrap() == None;
+    ok && rollback_undoes_winner(&db)
 }
 
 /// C04 (driver part 1): leave a WAL behind: a commit that dies right after the meta switch-over.
@@ -150,6 +163,21 @@ fn c14_ht_write_fails(dir: &str) -> bool {
     r.is_err() && db.is_poisoned()
 }
 
+/// C04 (driver): two ordinary commits; run under strace by the caller, which checks the order of
+/// write/fsync/ftruncate syscalls per file.
+fn c04_two_commits(dir: &str) -> bool {
+    let _ = std::fs::remove_dir_all(dir);
+    let db: Db = Nomt::open(opts(dir, true)).unwrap();
+    for round in 0..2u8 {
+        let mut w = vec![];
+        for i in 0..100u8 {
+            w.push((key(i.wrapping_mul(2).wrapping_add(round)), Some(vec![round; 16])));
+        }
+        commit(&db, w);
+    }
+    true
+}
+
 fn main() {
     let a: Vec<String> = std::env::args().collect();
     let (name, dir) = (a[1].as_str(), a[2].as_str());
@@ -160,6 +188,7 @@ fn main() {
         "c14_ht_write_fails" => c14_ht_write_fails(dir),
         "c04_crash_post_meta" => c04_crash_post_meta(dir),
         "c04_reopen" => c04_reopen(dir),
+        "c04_two_commits" => c04_two_commits(dir),
         _ => panic!("unknown scenario"),
     };
     if ok {
